@@ -149,9 +149,9 @@ type Expr struct {
 	Cond Term  // KIte: Cond >= 0
 }
 
-func L(t Term) *Expr       { return &Expr{K: KLin, T: t} }
-func C(c int64) *Expr      { return L(Const(c)) }
-func V(s Sym) *Expr        { return L(Var(s)) }
+func L(t Term) *Expr        { return &Expr{K: KLin, T: t} }
+func C(c int64) *Expr       { return L(Const(c)) }
+func V(s Sym) *Expr         { return L(Var(s)) }
 func (e *Expr) IsLin() bool { return e.K == KLin }
 
 func Max(a, b *Expr) *Expr {
@@ -230,7 +230,7 @@ func Neg(a *Expr) *Expr {
 	}
 }
 
-func Sub(a, b *Expr) *Expr     { return Add(a, Neg(b)) }
+func Sub(a, b *Expr) *Expr        { return Add(a, Neg(b)) }
 func AddC(a *Expr, c int64) *Expr { return Add(a, C(c)) }
 
 func Scale(a *Expr, k int64) *Expr {
@@ -827,4 +827,56 @@ func FindWitness(g *Ctx, syms []Sym, lo, hi map[Sym]int64, defLo, defHi int64, p
 		return nil
 	}
 	return rec(0)
+}
+
+// Canon rewrites a linear-piece expression modulo the equalities entailed by g
+// (so that Jaw - Teeth - 1 and -1 print the same when g forces Jaw = Teeth).
+func Canon(g *Ctx, e *Expr) *Expr {
+	e = Simplify(g, e)
+	if e.K != KLin {
+		return e
+	}
+	t := e.T
+	// equalities: constraints c >= 0 for which c >= 1 is infeasible
+	var eqs []Term
+	for _, c := range g.Cs {
+		if c.IsConst() {
+			continue
+		}
+		if Infeasible(g.With(c.Add(Const(-1))).Cs) {
+			eqs = append(eqs, c)
+		}
+	}
+	for iter := 0; iter < 8; iter++ {
+		changed := false
+		for _, q := range eqs {
+			// pick the lexicographically largest symbol with coefficient ±1 that occurs in t
+			var pick Sym
+			for _, s := range q.Syms() {
+				if k := q.M[s]; (k == 1 || k == -1) && t.M[s] != 0 {
+					pick = s
+				}
+			}
+			if pick == "" {
+				continue
+			}
+			// q: k*pick + rest = 0  =>  pick = -rest/k
+			k := q.M[pick]
+			rest := q.clone()
+			delete(rest.M, pick)
+			sub := rest.Scale(-k) // k = ±1 so 1/k = k
+			coef := t.M[pick]
+			nt := t.clone()
+			delete(nt.M, pick)
+			nt = nt.Add(sub.Scale(coef))
+			if len(nt.M) < len(t.M) || (len(nt.M) == len(t.M) && nt.String() < t.String()) {
+				t = nt
+				changed = true
+			}
+		}
+		if !changed {
+			break
+		}
+	}
+	return L(t)
 }
